@@ -343,27 +343,24 @@ impl Driver {
     pub fn cancel(&mut self, key: ErasedKey) {
         instrument!(compio_log::Level::TRACE, "cancel", ?key);
         trace!("cancel RawOp");
-        unsafe {
-            #[allow(clippy::useless_conversion)]
-            if self
-                .inner
-                .submission()
-                .push(
-                    &AsyncCancel::new(key.as_raw() as _)
-                        .build()
-                        .user_data(Self::CANCEL)
-                        .into(),
-                )
-                .is_err()
-            {
-                warn!("could not push AsyncCancel entry");
-                #[cfg(compio_verif)]
-                crate::verif::emit(crate::verif::Kind::CancelSqe, key.as_raw() as u64, 0, 0);
-            } else {
-                #[cfg(compio_verif)]
-                crate::verif::emit(crate::verif::Kind::CancelSqe, key.as_raw() as u64, 1, 0);
-            }
+        #[allow(clippy::useless_conversion)]
+        let entry = AsyncCancel::new(key.as_raw() as _)
+            .build()
+            .user_data(Self::CANCEL)
+            .into();
+        // `push_raw` makes room by submitting what is queued when the submission
+        // queue is full, instead of silently dropping the cancellation.
+        let res = self.push_raw(entry);
+        if let Err(e) = &res {
+            warn!("could not push AsyncCancel entry: {e:?}");
         }
+        #[cfg(compio_verif)]
+        crate::verif::emit(
+            crate::verif::Kind::CancelSqe,
+            key.as_raw() as u64,
+            res.is_ok() as u64,
+            0,
+        );
     }
 
     fn push_raw_with_key(&mut self, entry: SEntry, key: ErasedKey) -> io::Result<()> {
